@@ -1,10 +1,19 @@
 package c19
 
-// The server-side world: two real ServerPeerIDAuth instances driven through ServeHTTP with
+// The server-side world: several real ServerPeerIDAuth instances driven through ServeHTTP with
 // httptest recorders, the provenance tables (which opaque / token was minted by which
 // instance, when, for whom) filled from the servers' own responses, the provenance oracle
 // applied to EVERY request that reaches Next, and an honest client written from the spec
 // that produces valid material.
+//
+// Server secrets. The property speaks of "a bearer token the server itself issued" and of
+// "state minted under a different server secret". An instance gets its secret in one of three
+// ways (secretMode): an application-provided HmacKey that no other instance has, an
+// application-provided HmacKey that the application deliberately gave to several instances
+// (replicas: ONE secret, hence one "server" in the property's sense), or no HmacKey at all, in
+// which case the instance has to draw a secret of its own. Instances that were given the same
+// bytes form one secret domain; every other instance is a domain of its own. The oracle accepts
+// state only from the target's own domain.
 
 import (
 	"crypto/tls"
@@ -53,11 +62,23 @@ type tokenRec struct {
 	srv    int
 }
 
+type secretMode int
+
+const (
+	secretOwn    secretMode = iota // HmacKey provided, different from every other instance's
+	secretShared                   // HmacKey provided, the same bytes for every instance in this mode
+	secretUnset                    // HmacKey left nil: the instance draws its own secret
+)
+
+var secretNames = [...]string{"own", "shared", "unset"}
+
 type server struct {
 	idx     int
 	ident   *keys.Identity
 	pub     []byte
-	hmacKey []byte
+	hmacKey []byte // what the application provided; nil in mode secretUnset (the harness never learns the drawn secret)
+	secret  secretMode
+	domain  int // secret domain, see the file comment
 	ttl     time.Duration
 	tls     bool
 	auth    *httppeeridauth.ServerPeerIDAuth
@@ -89,7 +110,7 @@ type challengeEntry struct {
 
 type world struct {
 	f          failer
-	srv        [2]*server
+	srv        []*server
 	idents     []*keys.Identity // client identities of the case
 	known      map[peer.ID]ic.PubKey
 	pool       map[string][]poolEntry
@@ -104,27 +125,63 @@ type srvConf struct {
 	keyType string
 	ttl     time.Duration
 	tls     bool
+	secret  secretMode
+	ident   int // identity slot: instances with the same keyType and slot share one private key
 }
 
-func newWorld(f failer, conf [2]srvConf, idents []*keys.Identity) *world {
+// twoServers is the classic deployment: two unrelated instances.
+func twoServers(a, b srvConf) []srvConf {
+	a.ident, b.ident = 0, 1
+	return []srvConf{a, b}
+}
+
+// ownSecret is the HmacKey an application provides to instance i alone.
+func ownSecret(i int) []byte {
+	key := make([]byte, 32)
+	for j := range key {
+		key[j] = byte(37*j + 101*i + 1)
+	}
+	return key
+}
+
+// sharedSecret is the HmacKey an application provides to all its replicas.
+func sharedSecret() []byte {
+	key := make([]byte, 32)
+	for j := range key {
+		key[j] = byte(41*j + 7)
+	}
+	return key
+}
+
+const sharedDomain = 1000
+
+func newWorld(f failer, conf []srvConf, idents []*keys.Identity) *world {
 	w := &world{f: f, idents: idents, known: map[peer.ID]ic.PubKey{}, pool: map[string][]poolEntry{}}
 	for _, id := range idents {
 		w.known[id.ID] = id.Pub
 	}
-	for i := 0; i < 2; i++ {
-		id := keys.Get(conf[i].keyType, 10+i)
-		key := make([]byte, 32)
-		for j := range key {
-			key[j] = byte(37*j + 101*i + 1)
+	for i := range conf {
+		id := keys.Get(conf[i].keyType, 10+conf[i].ident)
+		var key []byte
+		domain := i
+		switch conf[i].secret {
+		case secretOwn:
+			key = ownSecret(i)
+		case secretShared:
+			key, domain = sharedSecret(), sharedDomain
 		}
-		s := &server{idx: i, ident: id, pub: mustPubBytes(id.Pub), hmacKey: key, ttl: conf[i].ttl, tls: conf[i].tls,
-			opaques: map[string]*opaqueRec{}, tokens: map[string]*tokenRec{}}
+		s := &server{idx: i, ident: id, pub: mustPubBytes(id.Pub), hmacKey: key, secret: conf[i].secret, domain: domain,
+			ttl: conf[i].ttl, tls: conf[i].tls, opaques: map[string]*opaqueRec{}, tokens: map[string]*tokenRec{}}
+		var provided []byte // stays nil in mode secretUnset
+		if key != nil {
+			provided = append([]byte(nil), key...)
+		}
 		s.auth = &httppeeridauth.ServerPeerIDAuth{
 			PrivKey:         id.Priv,
 			TokenTTL:        conf[i].ttl,
 			NoTLS:           !conf[i].tls,
 			ValidHostnameFn: validHost,
-			HmacKey:         append([]byte(nil), key...),
+			HmacKey:         provided,
 			Next: func(p peer.ID, rw http.ResponseWriter, r *http.Request) {
 				s.called = true
 				s.peer = p
@@ -133,9 +190,29 @@ func newWorld(f failer, conf [2]srvConf, idents []*keys.Identity) *world {
 			},
 		}
 		w.known[id.ID] = id.Pub
-		w.srv[i] = s
+		w.srv = append(w.srv, s)
 	}
 	return w
+}
+
+// other returns an instance different from s (the sel-th one, cyclically).
+func (w *world) other(s *server, sel int) *server {
+	n := len(w.srv)
+	if n < 2 {
+		return s
+	}
+	return w.srv[(s.idx+1+sel%(n-1))%n]
+}
+
+// relation names how instance a (which minted something) relates to instance b (which is shown it).
+func relation(a, b *server) string {
+	switch {
+	case a == b:
+		return "same-instance"
+	case a.domain == b.domain:
+		return "replica"
+	}
+	return "foreign"
 }
 
 type result struct {
@@ -300,17 +377,28 @@ func (w *world) pubOf(p peer.ID, cands [][]byte) ic.PubKey {
 // the header can decode to (independently of the parser under test) and at the harness'
 // own tables. Accepting peer p is justified iff
 //
-//	(bearer) some value decodes to exactly a token this instance issued to p, not older
+//	(bearer) some value decodes to exactly a token this server issued to p, not older
 //	         than the instance's TokenTTL; or
-//	(sig)    some value decodes to exactly an opaque this instance minted as a challenge, not
+//	(sig)    some value decodes to exactly an opaque this server minted as a challenge, not
 //	         older than challengeTTL, and some value is a signature that verifies under p's
 //	         public key over (that challenge, this instance's public key, the request's Host).
+//
+// "This server" is the instance itself or an instance the application gave the very same
+// HmacKey (same secret domain). State of any other instance - in particular of another instance
+// that was left to draw its own secret - and state that no instance minted at all justifies
+// nothing.
 func (w *world) justify(s *server, host, hdr string, p peer.ID, now time.Time) (bool, string, string) {
 	cands := decodedCandidates(hdr)
 	var notes []string
 	for _, d := range cands {
-		if tr := s.tokens[string(d)]; tr != nil {
+		for _, o := range w.srv {
+			tr := o.tokens[string(d)]
+			if tr == nil {
+				continue
+			}
 			switch {
+			case o.domain != s.domain:
+				notes = append(notes, fmt.Sprintf("carries a token issued by ANOTHER server instance (%d, secret %s) that does not share this instance's secret (%s)", o.idx, secretNames[o.secret], secretNames[s.secret]))
 			case tr.peer != p:
 				notes = append(notes, fmt.Sprintf("carries a token issued to %s, not to the reported peer", tr.peer))
 			case now.After(tr.issued.Add(s.ttl)):
@@ -319,20 +407,27 @@ func (w *world) justify(s *server, host, hdr string, p peer.ID, now time.Time) (
 				return true, "bearer", ""
 			}
 		}
-		if tr := w.srv[1-s.idx].tokens[string(d)]; tr != nil {
-			notes = append(notes, "carries a token issued by the OTHER server instance")
-		}
 	}
 	pub := w.pubOf(p, cands)
 	if pub == nil {
 		notes = append(notes, "no public key for the reported peer ID is known or carried by the request")
 	}
 	for _, d := range cands {
-		or := s.opaques[string(d)]
-		if or == nil {
-			if w.srv[1-s.idx].opaques[string(d)] != nil {
-				notes = append(notes, "carries an opaque minted by the OTHER server instance")
+		var or *opaqueRec
+		for _, o := range w.srv {
+			r := o.opaques[string(d)]
+			if r == nil {
+				continue
 			}
+			if o.domain != s.domain {
+				notes = append(notes, fmt.Sprintf("carries an opaque minted by ANOTHER server instance (%d, secret %s) that does not share this instance's secret (%s)", o.idx, secretNames[o.secret], secretNames[s.secret]))
+				continue
+			}
+			if or == nil || o == s {
+				or = r
+			}
+		}
+		if or == nil {
 			continue
 		}
 		if now.After(or.minted.Add(challengeTTL)) {
@@ -354,7 +449,7 @@ func (w *world) justify(s *server, host, hdr string, p peer.ID, now time.Time) (
 		notes = append(notes, fmt.Sprintf("carries a live own challenge opaque (minted for host %q) but no value is a signature by the reported peer over (its challenge, this server's key, host %q)", or.host, host))
 	}
 	if len(notes) == 0 {
-		notes = append(notes, "the header carries neither a token nor a challenge opaque minted by this instance")
+		notes = append(notes, "the header carries neither a token nor a challenge opaque minted by this instance (or by an instance given the same secret)")
 	}
 	return false, "", "oracle: " + strings.Join(notes, "; ")
 }
